@@ -1840,3 +1840,16 @@ def _state_output_key(src):
 
 
 M2("c20-pagination-marker-read-under-the-request-key", "C20", "R7.wire-keys-exist-in-the-service-model", [{"file": "lambda_service.py", "fn": _state_output_key}])
+
+# ---- from the mutation scan (tools/mutscan.py): survivors of the test-suite nothing had reported ----------------------------------------------
+M("c10-completed-context-not-registered", "C10", "R2.mark-on-succeed-and-fail", "state.py",
+  "                    self._completed_contexts.add(operation_update.operation_id)\n", "                    pass\n")
+M("c06-producer-sees-the-flag-and-enqueues", "C06", "R2.producer-checks-flag-before-put", "state.py",
+  "        if self._checkpointing_failed.is_set():\n            # This will raise the stored BackgroundThreadError\n            self._checkpointing_failed.wait()\n",
+  "        if self._checkpointing_failed.is_set():\n            # This will raise the stored BackgroundThreadError\n            pass\n")
+M("c06-timer-wakes-without-the-error", "C06", "R4.woken-with-the-error", "concurrency/executor.py",
+  "                # error to the thread blocked in execute() instead of dying silently\n                self._fatal_exception = e\n",
+  "                # error to the thread blocked in execute() instead of dying silently\n")
+M("c06-orphaned-nested-executor-not-woken", "C06", "R4.done-callback-routes-every-outcome", "concurrency/executor.py",
+  "            # executor runs inside an orphaned branch: unwind it instead of waiting for ever.\n            self._fatal_exception = e\n            self._completion_event.set()\n            return",
+  "            # executor runs inside an orphaned branch: unwind it instead of waiting for ever.\n            self._fatal_exception = e\n            return")
